@@ -25,9 +25,44 @@ def has(og, pat):
     return any(glob_match(pat, o) for o in og)
 
 
+def _root_locals(body, operand):
+    """Locals an operand is a (reference to a / clone of a / move of a) whole value of."""
+    out = set()
+    if operand[0] not in ('copy', 'move'):
+        return out
+    work = [operand[1][0]]
+    seen = set()
+    while work:
+        l = work.pop()
+        if l in seen:
+            continue
+        seen.add(l)
+        ds = body.defs(l)
+        stepped = False
+        for (bi, si, pl, rv) in ds:
+            if si == 't':
+                if isinstance(rv, tuple):
+                    continue
+                if any(glob_match('<* as std::clone::Clone>::clone', n) or n == 'std::clone::Clone::clone' for n in rv.names()) and rv.args:
+                    a = rv.args[0]
+                    if a[0] in ('copy', 'move'):
+                        work.append(a[1][0])
+                        stepped = True
+            elif rv[0] in ('ref', 'cfd') and not [e for e in rv[1][1] if isinstance(e, tuple)]:
+                work.append(rv[1][0])
+                stepped = True
+            elif rv[0] == 'use' and rv[1][0] in ('copy', 'move') and not [e for e in rv[1][1][1] if isinstance(e, tuple)]:
+                work.append(rv[1][1][0])
+                stepped = True
+        if not stepped:
+            out.add(l)
+    return out
+
+
 def run(ctx):
     R = ctx.report
     ws = ctx.ws
+    R.clause('e', 'the locally computed digests cover every immutable file present in the range')
     R.clause('a', 'VerifiedDigests exist only if the root recomputed from the downloaded list matches the signed message')
     R.clause('b', 'success requires no missing file unless the caller allowed it')
     R.clause('c', 'success requires the Merkle proof of the locally computed digests to verify')
@@ -73,6 +108,59 @@ def run(ctx):
         else:
             R.violation('a', 'R5', 'download_and_verify_digests: the returned map and tree are the checked ones', 'verified_digests:fields',
                         'VerifiedDigests fields do not derive from the downloaded digests / the checked tree', f.loc())
+
+    # the returned name->digest map is the very map whose values built the checked tree (no re-keying)
+    if f is not None:
+        lf = f.logic()
+        body0 = lf.body
+        vals = [c for c in body0.calls() if any(glob_match('std::collections::btree::map::BTreeMap::values', n) or
+                                               glob_match('std::collections::btree::map::BTreeMap::iter', n) for n in c.names())]
+        roots_tree = set()
+        for c in vals:
+            roots_tree |= _root_locals(body0, c.args[0])
+        roots_ret = set()
+        for b in body0.blocks:
+            for (_, pl, rv) in b.stmts:
+                if rv[0] == 'agg' and rv[2] == VD:
+                    roots_ret |= _root_locals(body0, rv[5][0])
+        inst = 'download_and_verify_digests: the returned digest map is the map whose values were certified (same keys)'
+        if roots_tree and roots_ret and roots_ret <= roots_tree:
+            R.ok('a', 'R5', inst, '', f.loc())
+        else:
+            R.violation('a', 'R5', inst, 'verified_digests:same-map', 'the returned map is rebuilt (re-keyed) after the tree was computed: the names that '
+                        'fix the digests\' positions in the certified tree are no longer the names they are bound to', f.loc())
+
+    # ---- (e) the digests compared are those of every immutable file present (not only completed trios)
+    cdr = ws.find_all('*::CardanoImmutableDigester as *ImmutableDigester>::compute_digests_for_range')
+    if not cdr:
+        R.missing('e', 'compute_digests_for_range impl not found')
+    else:
+        from props.c05 import closure_of
+        global_crates = ('mithril_cardano_node_internal_database',)
+        seen = {}
+        work = [cdr[0]]
+        while work:
+            g = work.pop()
+            if g.name in seen:
+                continue
+            seen[g.name] = g
+            for h in g.family():
+                for callee, resolved, line in h.calls:
+                    for n in (resolved, callee):
+                        if n and n in ws.by_name:
+                            for k in ws.by_name[n]:
+                                if k.unit.crate in global_crates and k.name not in seen:
+                                    work.append(k)
+                            break
+        names = set(seen)
+        lists_all = any(n.endswith('ImmutableFile::list_all_in_dir') for n in names)
+        lists_completed = any(n.endswith('ImmutableFile::list_completed_in_dir') for n in names)
+        inst = 'compute_digests_for_range digests every immutable file present in the range (list_all_in_dir, not list_completed_in_dir)'
+        if lists_all and not lists_completed:
+            R.ok('e', 'R3', inst, 'closure of %d fns' % len(names), cdr[0].loc())
+        else:
+            R.violation('e', 'R3', inst, 'digests_for_range:listing', 'list_all_in_dir reachable: %s; list_completed_in_dir reachable: %s (the last certified '
+                        'trio would never be hashed)' % (lists_all, lists_completed), cdr[0].loc())
 
     # ---- (b) (c) (d)
     v = ctx.try_fn('b', VCD)
